@@ -2,7 +2,7 @@
 # seedcheck.sh <id> [props...]: confirm a sub-agent's seeded change (tests pass, demo fails with / passes without),
 # then apply it to /repo, run the given checks (default: the property itself), and undo it.
 id=$1; shift; props=${@:-$id}
-wt=/tmp/wt/$id; res=$wt/RESULT
+wt=${WT:-/tmp/wt}/$id; res=$wt/RESULT
 export GOFLAGS=-mod=mod GOPROXY=off
 echo "== $id: confirming in $wt"
 ( cd $wt && go build ./... && go test -count=1 ./... 2>&1 | grep -E "^(--- FAIL|FAIL|ok)" | grep -v "no test files" | tr '\n' ' ' ); echo
@@ -12,7 +12,7 @@ echo "== $id: applying to /repo"
 if ! git -C /repo apply --check $res/patch.diff; then echo "patch does not apply to /repo"; exit 3; fi
 git -C /repo apply $res/patch.diff
 for p in $props; do
-  out=$(/verif/check $p quick 2>&1); rc=$?
+  out=$(VERIF_EVIDENCE_DIR=/tmp/seed-evidence VERIF_REPLAY_DIR=/tmp/seed-replay /verif/check $p quick 2>&1); rc=$?
   echo "-- check $p rc=$rc"; echo "$out" | grep -E "VIOLATION|UNDECIDED|engine:|quick:" | cut -c1-240 | head -8
 done
 git -C /repo apply -R $res/patch.diff
